@@ -4,7 +4,13 @@ resolver (flow/sink_resolver.hpp: update_routes_sinks_carve).  Properties C15 (o
 orient_edges is cut into
   orient_count / orient_fill   the bodies of the two `for (size_type l_id : m_tree)` loops (CSR construction), outlined,
   orient_visit                 the body of the inner `for` of the depth-first parse (one incident edge of the popped basin), outlined,
-  orient_edges                 the whole function with these bodies replaced by calls; every loop closed by a loop contract.
+  orient_csr_init / _count / _prefix / _fill
+                               the CSR phase (text up to `m_reorder_stack.reserve`) cut at three fixed statements into four consecutive slices,
+                               loop bodies replaced by calls, every loop closed by a loop contract (the monolithic unit orient_csr runs out of memory),
+  orient_pop                   the body of the depth-first `while` (one pop + scan of the row, inner `for` under a loop contract over orient_visit),
+  orient_dfs                   the text from `m_reorder_stack.reserve` to the end, `while` under a loop contract over orient_pop's contract.
+Measured pitfall (cost the previous round its three loop-level groups): `requires(bounds && is_fresh(p, n))` makes the allocation conditional and every
+later dereference of p a two-way case split with a byte-level fallback; the loop-level units put each is_fresh in a requires clause of its own.
 update_routes_sinks_carve is cut into carve_step (body of the loop over the tree, with the inner `while` under a loop contract)
 and carve (the loop over the tree)."""
 from fv.extract import Unit, R, V, RB
@@ -281,40 +287,51 @@ REL_GH = "EDGE_REL(OGE, gh_e.link[0], gh_e.link[1], gh_e.pass[0], gh_e.pass[1], 
 DFS_ASSIGNS = ("__CPROVER_object_whole(m_edges), __CPROVER_object_whole(m_reorder_stack), m_reorder_stack_n, __CPROVER_object_whole(m_pass_stack), "
                "m_pass_stack_n, __CPROVER_object_whole(m_parent_basins), OGV_P, OGV_B, OGS_B")
 
-orient_pop = Unit(
-    name="orient_pop", file=BG_H, anchor=OR_ANCHOR, inner=POP_INNER,
-    sig="void orient_pop(%s%s)" % (OR_PARAMS, TG_PARAMS), pre=OR_PRE + DFS_PRE,
-    rules=[RB(VISIT_INNER.replace(r"\s*\{", ""),
-              "{ /* instances: CSR postcondition at slot i, room below the ghost capacities (model artefact), induction hypothesis `the end points "
-              "of a tree edge are its child and that child's parent` at the edge read */\n"
-              "  FSL_PRE(CSR_SLOT(node, i) && LINKS(m_nodes_adjacency[i])); FSL_PRE(m_reorder_stack_n < m_reorder_stack_cap && m_pass_stack_n < m_pass_stack_cap);\n"
-              "  const size_t or_n0_ = m_reorder_stack_n;\n"
-              "  orient_visit(%s, node, parent, pass_elevation, parent_pass_elevation, i);\n"
-              "  /* ghost: remember where the ghost basin was stacked */ if (m_reorder_stack_n > or_n0_ && RS(or_n0_).node == OGB) OGS_B = or_n0_; }" % OR_ARGS)] + OR_VOCAB,
-    body_prefix=OR_LOCALS + "    /* ghost: value of the ghost edge at entry (a loop invariant cannot use __CPROVER_old) */ const struct fsl_edge gh_e = m_edges[OGE];\n"
-                "    /* ghost: length of the stack at entry */ const size_t gh_n0 = m_reorder_stack_n;\n",
-    body_suffix="    /* ghost: this basin has been popped */ if (HASP(OGB) && node == TPAR(OGB)) OGV_P = 1; if (node == OGB) OGV_B = 1;\n",
-    contract=DFS_SHAPE + r"""
+# the pop is proved lemma by lemma (same function, same requires / assigns / ghost code; each lemma carries a subset of the state clauses through the
+# inner loop and ensures that subset; the union of the lemmas' ensures is the contract the while loop uses).  Indices into DFS_STATE; the lengths clause
+# (0) and the two clauses about the popped basin itself are needed by every lemma.
+POP_LEMMAS = {"stack": [0, 1], "edge": [0, 2, 3], "progress": [0, 4, 5]}
+_POP_INV_W = {
+    "W1": "/* as long as the parent of the ghost basin is being processed: the slots before i have been visited */\n"
+          "__CPROVER_loop_invariant(!(HASP(OGB) && (OGV_P || (node == TPAR(OGB) && TWSP(OGB) < i))) || (ORIENTED(TPED(OGB)) && (OGV_B || node == OGB || ONSTACK_B)))\n",
+    "W0": "__CPROVER_loop_invariant(!(HASP(OGB) && TPAR(OGB) == m_root) || OGV_P || node == m_root || (m_reorder_stack_n >= 1 && RS(0).node == m_root && RS(0).parent == m_root))\n",
+}
+
+
+def make_pop(lemma=None):
+    idx = list(range(len(DFS_STATE))) if lemma is None else POP_LEMMAS[lemma]
+    state = [DFS_STATE[k] for k in idx]
+    grow = lemma in (None, "stack")
+    return Unit(
+        name="orient_pop", file=BG_H, anchor=OR_ANCHOR, inner=POP_INNER,
+        sig="void orient_pop(%s%s)" % (OR_PARAMS, TG_PARAMS), pre=OR_PRE + DFS_PRE,
+        rules=[RB(VISIT_INNER.replace(r"\s*\{", ""),
+                  "{ /* instances: CSR postcondition at slot i, room below the ghost capacities (model artefact), induction hypothesis `the end points "
+                  "of a tree edge are its child and that child's parent` at the edge read */\n"
+                  "  FSL_PRE(CSR_SLOT(node, i) && LINKS(m_nodes_adjacency[i])); FSL_PRE(m_reorder_stack_n < m_reorder_stack_cap && m_pass_stack_n < m_pass_stack_cap);\n"
+                  "  const size_t or_n0_ = m_reorder_stack_n;\n"
+                  "  orient_visit(%s, node, parent, pass_elevation, parent_pass_elevation, i);\n"
+                  "  /* ghost: remember where the ghost basin was stacked */ if (m_reorder_stack_n > or_n0_ && RS(or_n0_).node == OGB) OGS_B = or_n0_; }" % OR_ARGS)] + OR_VOCAB,
+        body_prefix=OR_LOCALS + "    /* ghost: value of the ghost edge at entry (a loop invariant cannot use __CPROVER_old) */ const struct fsl_edge gh_e = m_edges[OGE];\n"
+                    "    /* ghost: length of the stack at entry */ const size_t gh_n0 = m_reorder_stack_n;\n",
+        body_suffix="    /* ghost: this basin has been popped */ if (HASP(OGB) && node == TPAR(OGB)) OGV_P = 1; if (node == OGB) OGV_B = 1;\n",
+        contract=DFS_SHAPE + r"""
 /* a non-empty stack; induction-hypothesis instance of the stack-element invariant at the slot that is popped (DESIGN 3.9) */
 __CPROVER_requires(m_reorder_stack_n >= 1 && SE(m_reorder_stack_n - 1))
 """ + "".join("__CPROVER_requires(%s)\n" % (c % dict(rel="1")) for c in DFS_STATE) + r"""
 __CPROVER_assigns(""" + DFS_ASSIGNS + r""")
-""" + "".join("__CPROVER_ensures(%s)\n" % (c % dict(rel=REL_OLD)) for c in DFS_STATE) + r"""
-__CPROVER_ensures(m_reorder_stack_n + 1 >= OLD(m_reorder_stack_n))
-""",
-    loops={0: r"""
+""" + "".join("__CPROVER_ensures(%s)\n" % (c % dict(rel=REL_OLD)) for c in state)
+        + ("__CPROVER_ensures(m_reorder_stack_n + 1 >= OLD(m_reorder_stack_n))\n" if grow else ""),
+        loops={0: r"""
 __CPROVER_assigns(i, """ + DFS_ASSIGNS + r""")
 __CPROVER_loop_invariant(node < nbasins && parent < nbasins && m_nodes_connects_ptr[node] <= i)
-/* the visits only push */
-__CPROVER_loop_invariant(m_reorder_stack_n + 1 >= gh_n0)
+""" + ("/* the visits only push */\n__CPROVER_loop_invariant(m_reorder_stack_n + 1 >= gh_n0)\n" if grow else "") + r"""
 /* the edge towards the parent of the popped basin stays (parent, basin) during the scan of its row (it is the one edge of the row that is left as it is) */
 __CPROVER_loop_invariant(node == parent || ORIENTED(TPED(node)))
-""" + "".join("__CPROVER_loop_invariant(%s)\n" % (c % dict(rel=REL_GH)) for c in DFS_STATE if c not in ("W1", "W0")) + r"""
-/* while the parent of the ghost basin is being processed: the slots before i have been visited */
-__CPROVER_loop_invariant(!(HASP(OGB) && (OGV_P || (node == TPAR(OGB) && TWSP(OGB) < i))) || (ORIENTED(TPED(OGB)) && (OGV_B || node == OGB || ONSTACK_B)))
-__CPROVER_loop_invariant(!(HASP(OGB) && TPAR(OGB) == m_root) || OGV_P || node == m_root || (m_reorder_stack_n >= 1 && RS(0).node == m_root && RS(0).parent == m_root))
-"""},
-)
+""" + "".join(_POP_INV_W[c] if c in _POP_INV_W else "__CPROVER_loop_invariant(%s)\n" % (c % dict(rel=REL_GH)) for c in state)})
+
+
+orient_pop = make_pop()
 
 orient_dfs = Unit(
     name="orient_dfs", file=BG_H, anchor=OR_ANCHOR, sig="void orient_dfs(%s%s)" % (OR_PARAMS, TG_PARAMS), pre=OR_PRE + DFS_PRE,
@@ -355,6 +372,20 @@ G_POP = Group(
     clause="orient_edges, one iteration of the depth-first `while` (pop one basin, visit its row of the adjacency table; the inner `for` is closed by a "
            "loop contract over the visit's contract): the stack-element invariant, `end points of a tree edge = child and its parent`, the swap-together / "
            "untouched relation of an arbitrary edge to its value at entry, and the progress invariant of an arbitrary basin are preserved")
+_POP_WHAT = {
+    "stack": "the stack-element invariant (a stacked (basin, parent) names a basin and its parent in the forest whose tree edge is already stored as (parent, basin); "
+             "the start entry is (root, root)) holds for an arbitrary slot afterwards; the stack shrinks by at most the popped entry",
+    "edge": "an arbitrary edge keeps `end points of a tree edge = child and its parent` and is, relative to its value at entry, untouched or has link and pass swapped "
+            "together, weight / length untouched, non-tree edges untouched",
+    "progress": "the progress invariant of an arbitrary basin (once its parent has been popped its parent edge is stored as (parent, basin) and the basin itself has been "
+                "popped or is stacked; the root sits at slot 0 until it is popped) is preserved",
+}
+G_POP_LEMMAS = [Group(
+    name="orient.pop.%s" % l, units=[orient_visit_all, make_pop(l)], extra_c=[MODEL_H, OR_H],
+    harness=H_DFS % dict(fn="orient_pop", call="orient_pop(%s%s)" % (OR_ARGS, TG_ARGS), pre=""),
+    entry="h_orient_pop", enforce="orient_pop", replace=["orient_visit"], loop_contracts=True, backend="cadical", timeout=1500, min_obligations=30, no_checks=NOPO,
+    clause="orient_edges, one iteration of the depth-first `while` (pop one basin, visit its row of the adjacency table; the inner `for` is closed by a loop contract "
+           "over the visit's contract), lemma `%s`: %s" % (l, _POP_WHAT[l])) for l in POP_LEMMAS]
 G_DFS = Group(
     name="orient.dfs", units=[orient_pop, orient_dfs], extra_c=[MODEL_H, OR_H],
     harness=H_DFS % dict(fn="orient_dfs", call="orient_dfs(%s%s)" % (OR_ARGS, TG_ARGS), pre=""),
@@ -1020,36 +1051,74 @@ G_CV_STEP = [Group(
     clause="update_routes_sinks_carve, one tree edge (an outer-basin link is skipped untouched; the walk down the old receiver chain terminates: "
            "the pit sits at the last chain position), lemma `%s`: %s" % (l, _CV_WHAT[l])) for l in CV_LEMMAS]
 
-# groups whose proofs do not finish on any installed back end yet (memory / time): kept for development, NOT registered, nothing is claimed from them
-EXPERIMENTAL = [G_CSR, G_POP, G_DFS, G_VISIT_LEN] + G_CSR_SLICES
+# NOT registered, nothing is claimed from them:
+#   orient.csr.loops     the monolithic CSR unit (out of memory); superseded by the slices orient.csr.{init, count.loop, prefix.loop, fill.loop.*}
+#   orient.pop.<lemma>   lemma split of the pop (all three discharge: stack 329 s / edge 193 s / progress 233 s, cadical); the registered group is the
+#                        monolithic orient.pop (433 s, thorough tier), which proves exactly the contract the while loop uses
+EXPERIMENTAL = [G_CSR] + G_POP_LEMMAS
 
-_OR_GROUPS = [G_COUNT, G_FILL, G_VISIT, G_OR_BOUNDED, G_OR_BOUNDED4] + (EXPERIMENTAL if _os.environ.get("OR_EXPERIMENTAL") else [])
-GROUPS = {"C15": _OR_GROUPS, "C01": G_CV_STEP, "C08": [G_COUNT, G_FILL, G_VISIT] + G_CV_STEP}
+# measured (cadical unless stated, shared machine): csr.init 2 s, csr.count.loop 14 s, csr.prefix.loop 14 s, csr.fill.loop.cnt 39 s / .p1 76 s / .p2 64 s,
+# visit.len 60 s (cvc5), dfs 164 s, pop 433 s
+G_POP.tier = "thorough"
+_OR_LOOPS = G_CSR_SLICES + [G_VISIT_LEN, G_POP, G_DFS]
+_OR_GROUPS = [G_COUNT, G_FILL, G_VISIT] + _OR_LOOPS + [G_OR_BOUNDED, G_OR_BOUNDED4] + (EXPERIMENTAL if _os.environ.get("OR_EXPERIMENTAL") else [])
+# C08 borrows the step-level and CSR groups (every index of the CSR tables); the depth-first loop groups are long and add no new index obligations
+GROUPS = {"C15": _OR_GROUPS, "C01": G_CV_STEP,
+          "C08": [G_COUNT, G_FILL, G_VISIT] + [g for g in _OR_LOOPS if g.name.startswith("orient.csr.")] + G_CV_STEP,
+          # C09: the CSR phase and the depth-first parse hold on ARBITRARY pre-state of the scratch vectors (nothing survives a call)
+          "C09": [g for g in _OR_LOOPS if g.name in ("orient.csr.init", "orient.dfs")]}
 PROPS = {
     "C15": dict(
         level="other",
-        explanation="orient_edges (orientation clause of C15).  Decided for all inputs (unbounded): one incident edge of the popped basin (outlined body of the inner "
-                    "`for` of the depth-first parse) -- the edge towards the parent stays (parent, basin), every other incident edge ends up (basin, other end) with link and "
-                    "pass swapped together, weight and length untouched, exactly one stack entry pushed, every other edge and older stack entry untouched; the two CSR loop "
-                    "bodies (degree count of exactly the two end points; edge id stored in the rows of BOTH end points, indices inside the table).  `After orientation every "
-                    "tree edge points from the basin nearer the root to the farther one` for the whole function is a BOUNDED check (all rooted forests with <= %d basins, "
-                    "every storage order and initial direction, arbitrary scratch pre-state), never counted as proof." % NB_B,
+        explanation="orient_edges (orientation clause of C15).  Decided for all inputs (unbounded, any number of basins / tree edges, ARBITRARY pre-state of every scratch "
+                    "vector): (1) one incident edge of the popped basin (outlined body of the inner `for` of the depth-first parse) -- the edge towards the parent stays "
+                    "(parent, basin), every other incident edge ends up (basin, other end) with link and pass swapped together, weight and length untouched, exactly one "
+                    "stack entry pushed, every other edge and older stack entry untouched; (2) the two CSR loop bodies (degree count of exactly the two end points; edge id "
+                    "stored in the rows of BOTH end points, indices inside the table); (3) the CSR phase as a whole, cut at three fixed statements into four consecutive "
+                    "slices (reset / count loop / prefix loop + resize / fill loop), every loop under a loop contract over its body's contract: the row of an arbitrary "
+                    "basin is as long as its degree in the tree, rows are consecutive, do not overlap and end inside the table, every filled slot holds a tree edge "
+                    "incident to the basin, every tree edge occurs in the rows of both its end points; (4) one iteration of the depth-first `while` (pop + scan of the row, "
+                    "inner `for` under a loop contract over the visit's contract, ghost rooted forest): stack-element invariant, `end points of a tree edge = child and "
+                    "its parent`, swap-together / untouched relation of an arbitrary edge, progress invariant of an arbitrary basin are preserved; (5) the text from "
+                    "`m_reorder_stack.reserve` to the end, `while` under a loop contract over (4): when the parse ends the stack is empty, every basin whose parent is "
+                    "the root or has been popped has been popped itself and its parent edge is stored as (parent, basin); every edge keeps its end points, link and pass "
+                    "are swapped together, weights, lengths and non-tree edges are untouched.  `After orientation every tree edge points from the basin nearer the root "
+                    "to the farther one` for the whole function in one piece is additionally a BOUNDED check (all rooted forests with <= %d basins, every storage order "
+                    "and initial direction, arbitrary scratch pre-state), never counted as proof." % NB_B,
         assumptions=[
             "orient_edges, visit step: the slot read holds a tree edge incident to the popped basin joining two DIFFERENT basins < basins_count() (postcondition of the CSR "
             "phase + input well-formedness of the tree, producers compute_tree_*; instance at the slot read)",
             "orient_edges: m_root < basins_count() (an unmasked base-level node exists; otherwise m_root = size_type(-1) indexes out of bounds: outside the documented domain, "
             "recorded as F10 in DESIGN 10.2)",
-            "std::vector model (buffer, length, ghost capacity): `length < capacity` at push_back is a model artefact (the real vector reallocates)",
+            "std::vector model (buffer, length, ghost capacity): `length < capacity` at push_back is a model artefact (the real vector reallocates); ghost capacity of the "
+            "adjacency table = two slots per tree edge",
+            "orient_edges, CSR slices: a tree entry read is an edge index whose end points are two different basins < basins_count() (input well-formedness, producers "
+            "compute_tree_*); ghost count table CUM (number of end points equal to the ghost basin among the first t tree entries) defined by its recurrence, instantiated at "
+            "the tree slot read, with its consequence CUM[t + 1] <= CUM[|tree|]",
+            "orient_edges, prefix loop: `prefix sums of the degree counts are bounded by their total 2 * |tree|` (double counting) -- ASSUMED arithmetic lemma, instantiated "
+            "at the loop index; instance at basin 0 of the count slice's postcondition `degree <= 2 * |tree|` (proved there at the arbitrary ghost basin)",
+            "orient_edges, fill loop: induction-hypothesis instances (DESIGN 3.9) at the two end points of the edge read of facts proved at the ghost basin / ghost pair: the "
+            "row is not full as long as an incident edge is still to be stored (asserted at the ghost basin immediately before), rows of different basins do not overlap",
+            "orient_edges, depth-first parse: ghost rooted forest (harness-owned read-only tables: parent, depth, parent edge and its slot in the parent's row, child end of an "
+            "edge), definitions instantiated at the ghost basin / ghost edge / the edge read.  THAT THE TREE EDGES FORM A FOREST (no cycle: an edge enters the tree iff its end "
+            "points are in different union-find classes) is the producers' property, composition not mechanised",
+            "orient_edges, pop: CSR postcondition in the forest vocabulary at the slot read (the slot lies in the row of the popped basin and holds a tree edge joining it to its "
+            "parent or to one of its children) and at the ghost basin (its parent edge sits at slot wsp in the row of its parent); induction-hypothesis instances `end points "
+            "of a tree edge = child and its parent` at the edge read and of the stack-element invariant at the popped slot (both proved at the arbitrary ghost edge / slot)",
+            "--pointer-overflow-check is off for the loop-level groups (every size <= 2^40, index obligations stay on)",
         ],
         unmechanised=[
-            "depth-first parse as a whole: the stack-element invariant (a stacked (node, parent) has its tree edge already stored as (parent, node)) + the visit step give "
-            "`every tree edge reachable from the root ends up oriented away from it` by induction over the pops; the while-loop proof (units orient_pop / orient_dfs with a "
-            "ghost forest) exists in spec/orient.py but does not finish on any installed back end (memory / 2000 s) and is NOT claimed",
+            "sequencing of the CSR slices and of CSR phase -> depth-first parse: each slice requires verbatim what the previous one ensures and the cuts are consecutive "
+            "(checked textually at import, spec/orient.py _check_csr_sequencing), not by cbmc; the translation of the CSR postcondition (every slot of a row holds an incident "
+            "tree edge; every tree edge occurs in both rows, witness slot) into the forest vocabulary used by the pop (CSR_SLOT / CSR_PEDGE) is by hand",
+            "from (5) to `every tree edge connected to the root points away from it`: induction over the ghost depth (the root is popped; a basin whose parent has been popped "
+            "is popped and its parent edge is oriented) -- one line, not mechanised",
+            "the contract of the pop (4) is used by (5) as stated; (4) is proved in the thorough tier (433 s)",
         ],
         undecided=[
-            "orient_edges: CSR phase as a whole (rows consecutive, as long as the degree, every tree edge in both rows) -- loop-level group orient.csr.loops does not finish; "
-            "only its two loop bodies are decided",
-            "orient_edges: the depth-first while loop for unbounded trees (see unmechanised); bounded: all forests on <= %d basins" % NB_B,
+            "orient_edges: termination of the depth-first `while` (no measure is proved; (5) is a partial-correctness statement `when the parse ends`)",
+            "orient_edges: contents of the m_keep_order bookkeeping (m_parent_basins, m_pass_stack): only lengths / index safety are decided",
+            "orient_edges as ONE piece for unbounded trees (the composition above is by hand); bounded: all forests on <= %d basins" % NB_B,
         ],
     ),
     "C01": dict(
@@ -1074,7 +1143,15 @@ PROPS = {
     ),
     "C08": dict(
         level="other",
-        explanation="orient_edges loop bodies and the carve step: every vector / table index in range under the stated instances.",
-        undecided=["orient_edges / update_routes_sinks_carve as whole functions (loop-level groups do not finish)"],
+        explanation="orient_edges loop bodies, the sliced CSR phase, the pop and the depth-first loop (every loop under a loop contract, any number of basins / tree "
+                    "edges, arbitrary scratch pre-state), and the carve step: every vector / table index in range under the stated instances.",
+        undecided=["update_routes_sinks_carve as a whole function (only its loop body is decided)",
+                   "orient_edges: indices are decided per slice / per unit under the instances listed for C15; the composition of the units is textual"],
     ),
 }
+PROPS["C09"] = dict(
+    level="other",
+    explanation="orient_edges scratch state: the CSR phase (orient.csr.init: resize + fill of the count / pointer tables) and the depth-first parse (orient.dfs: the stack is "
+                "cleared and re-seeded, m_parent_basins / m_pass_stack resized or cleared) are proved on ARBITRARY contents and lengths of m_nodes_connects_size / _ptr / "
+                "m_nodes_adjacency / m_reorder_stack / m_pass_stack / m_parent_basins, so nothing an earlier call left behind can reach a later result.",
+)
